@@ -139,7 +139,13 @@ def direction_and_filters(chk, svc_mod):
             svc.compute_stm = lambda steps: ('xx', 'tt', 'PHI_T', 'PHI')
             svc._generator = Stub(compute=lambda domain_obj, options: got.update(M=domain_obj))
             svc._eigendecomposition_options = Stub(to_dict=lambda: {})
-            cls.compute_stability(svc)
+            svc._eigendecomposition_config = 'ECFG'
+            saved_sp = svc_mod.StabilityPipeline        # the service builds one pipeline per cached decomposition
+            svc_mod.StabilityPipeline = Stub(with_default_engine=lambda config=None, **k: Stub(compute=lambda domain_obj, options: got.update(M=domain_obj)))
+            try:
+                cls.compute_stability(svc)
+            finally:
+                svc_mod.StabilityPipeline = saved_sp
             (chk.ok if got.get('M') == 'PHI_T' else (lambda o, d: chk.fail(o, d, None)))('C12/(4)stability-of-phi_T/%s' % tag, 'the eigen-decomposition receives the end value of the same STM', nontrivial=False)
             # (2),(5) _run_compute: propagation arguments and filters
             rec = []
